@@ -291,7 +291,7 @@ func notOkEdge(w *world.World, ta *ssa.TypeAssert) (report.Status, string) {
 		if iff == nil {
 			return nil, 0, false
 		}
-		c := iff.Cond
+		c := world.CondValue(iff)
 		neg := false
 		if u, ok := c.(*ssa.UnOp); ok && u.Op.String() == "!" {
 			c, neg = u.X, true
@@ -309,14 +309,14 @@ func notOkEdge(w *world.World, ta *ssa.TypeAssert) (report.Status, string) {
 		}
 		return t.X, 1, true
 	}
-	var starts []*ssa.BasicBlock
+	var starts [][2]*ssa.BasicBlock
 	used := false
 	for _, b := range fn.Blocks {
 		iff := world.IfOf(b)
 		if iff == nil {
 			continue
 		}
-		c := iff.Cond
+		c := world.CondValue(iff)
 		neg := false
 		if u, ok := c.(*ssa.UnOp); ok && u.Op.String() == "!" {
 			c, neg = u.X, true
@@ -324,9 +324,9 @@ func notOkEdge(w *world.World, ta *ssa.TypeAssert) (report.Status, string) {
 		if c == okv {
 			used = true
 			if neg {
-				starts = append(starts, b.Succs[0])
+				starts = append(starts, [2]*ssa.BasicBlock{b.Succs[0], b})
 			} else {
-				starts = append(starts, b.Succs[1])
+				starts = append(starts, [2]*ssa.BasicBlock{b.Succs[1], b})
 			}
 		}
 	}
@@ -334,15 +334,15 @@ func notOkEdge(w *world.World, ta *ssa.TypeAssert) (report.Status, string) {
 		// ok flows elsewhere (phi of several ok values, returned, stored)
 		return report.NotDecided, "the ok result is not tested by a branch directly (combined or returned); not decided"
 	}
-	seen := map[*ssa.BasicBlock]bool{}
+	seen := map[[2]*ssa.BasicBlock]bool{}
 	var bad []string
 	var mut []string
-	var dfs func(b *ssa.BasicBlock)
-	dfs = func(b *ssa.BasicBlock) {
-		if seen[b] {
+	var dfs func(b, from *ssa.BasicBlock)
+	dfs = func(b, from *ssa.BasicBlock) {
+		if seen[[2]*ssa.BasicBlock{b, from}] {
 			return
 		}
-		seen[b] = true
+		seen[[2]*ssa.BasicBlock{b, from}] = true
 		for _, in := range b.Instrs {
 			switch x := in.(type) {
 			case *ssa.Return:
@@ -357,15 +357,16 @@ func notOkEdge(w *world.World, ta *ssa.TypeAssert) (report.Status, string) {
 			}
 		}
 		if x, notOk, is := okTest(b); is && world.SameExpr(x, ta.X) {
-			dfs(b.Succs[notOk])
+			dfs(b.Succs[notOk], b)
 			return
 		}
-		for _, s := range b.Succs {
-			dfs(s)
+		// a test of a value merged by a phi of this block is decided by the path taken into it
+		for _, si := range world.SuccsFrom(from, b) {
+			dfs(b.Succs[si], b)
 		}
 	}
 	for _, s := range starts {
-		dfs(s)
+		dfs(s[0], s[1])
 	}
 	switch {
 	case len(mut) > 0:
